@@ -146,6 +146,18 @@ pub fn rps(w: [i64; 3]) -> Tree {
     )
 }
 
+/// one infoset of player two spanning every subtree below two moves of player one: with several threads
+/// the tasks of a pass all meet at that infoset's accumulator
+pub fn contended(n: usize) -> Tree {
+    let names: Vec<String> = (0..n).map(|j| format!("m{j}")).collect();
+    let leaf = |a: usize, b: usize, c: usize| term(((a * 7 + b * 3 + c * 5) % 9) as i64 - 4);
+    let p2 = |a: usize, b: usize| player(2, "blind", vec![("l", leaf(a, b, 0)), ("m", leaf(a, b, 1)), ("r", leaf(a, b, 2))]);
+    let second = |a: usize| {
+        Tree::P { pl: 1, info: format!("after{a}"), kids: (0..n).map(|b| PKid { a: names[b].clone(), t: p2(a, b) }).collect() }
+    };
+    Tree::P { pl: 1, info: "first".to_string(), kids: (0..n).map(|a| PKid { a: names[a].clone(), t: second(a) }).collect() }
+}
+
 pub fn all() -> Vec<(String, Tree)> {
     let mut v = vec![
         ("pennies".to_string(), pennies()),
